@@ -54,6 +54,8 @@ FSTRING_PROGRAMS = [
     ("walrus-in-displays", "print({(a := 5), 1} == {1, 5}, [(b := 2), b], ((c := 3), c), {(d := 4): d}, a)\n"),
     ("walrus-in-call-and-subscript", "l = [1, 2, 3]\nprint(l[(i := 1)], max((j := 2), 1), i, j, f'{(k := 7)}', k)\n"),
     ("starred-index-load", "t = (1, 2)\nd = {(1, 2, 3): 'x', (0, 1, 2): 'y'}\nprint(d[(*t, 3)], d[(0, *t)])\n"),
+    # loop-else with break / return: placeholders and flags the lowering builds itself (host-dependent names from `from ast import *`)
+    ("loop-else-break", "n = 0\nwhile n < 3:\n    n += 1\n    if n == 2:\n        break\nelse:\n    print('no break')\nprint(n)\ndef f():\n    i = 0\n    while i < 3:\n        i += 1\n        if i == 2:\n            return i\n    else:\n        return -1\nprint(f())\nfor k in [1, 2]:\n    if k == 2:\n        break\nelse:\n    print('for no break')\nprint(k)\nm = 0\nwhile m < 2:\n    m += 1\nelse:\n    print('else ran', m)\n"),
     # comprehensions in class bodies: their own table exists only on hosts <= 3.11 (inlined since 3.12)
     ("class-comprehension-reads-global", "x = 'm'\nclass K:\n    y = [x + str(i) for i in range(2)]\n    z = {i: x for i in range(1)}\nprint(K.y, K.z)\n"),
     ("class-comprehension-beside-member", "x = 'm'\nclass K:\n    x = 'k'\n    c = [x for _ in [0]]\n    d = [a for a in x]\nprint(K.c, K.d)\n"),
